@@ -380,3 +380,77 @@ Definition state_wf (u : update) : bool :=
 Definition same_claims (a b : image) : Prop :=
   i_term a = i_term b /\ i_vote a = i_vote b /\ i_log a = i_log b /\
   i_snap_index a = i_snap_index b /\ i_snap_term a = i_snap_term b.
+
+(* ------------------------------------------------------------------ *)
+(* SaveRaftState of Tan over a BATCH of updates (internal/tan/logdb.go).
+   db.write alone appends the record and says whether an fsync is needed; the fsync itself is
+   issued by SaveRaftState: with multiplexed logs ONCE after the loop over the batch, when the
+   decisions carried over the loop say so (GENERATED: [tan_mux_sync_accumulates] = the
+   decisions are OR-ed, [tan_mux_sync_after_batch]); in the regular mode per update
+   (GENERATED: [tan_seq_sync_each]). An fsync of the shared log file makes every record
+   written so far durable, whichever replica it belongs to. *)
+
+Definition tan_append (d : tan_db) (u : update) : tan_db * bool :=
+  let st := td_cache d in
+  if hstate_eqb (u_state u) st && (u_snap_index u =? 0) &&
+     match u_save u with [] => true | _ => false end
+  then (d, false)
+  else (mkTan (u_state u) (persist_update (td_written d) u) (td_synced d), tan_sync_needed st u).
+
+Definition tan_fsync (d : tan_db) : tan_db := mkTan (td_cache d) (td_written d) (td_written d).
+
+(* the replicas whose records share one tan db (one log file) *)
+Definition mdb := key -> tan_db.
+Definition mupd (m : mdb) (k : key) (d : tan_db) : mdb :=
+  fun k' => if key_eqb k' k then d else m k'.
+
+Definition sync_combine (acc s : bool) : bool :=
+  if tan_mux_sync_accumulates then acc || s else s.
+
+Fixpoint tan_mux_appends (m : mdb) (flag : bool) (us : list update) : mdb * bool :=
+  match us with
+  | [] => (m, flag)
+  | u :: r =>
+    let '(d', s) := tan_append (m (ukey u)) u in
+    tan_mux_appends (mupd m (ukey u) d') (sync_combine flag s) r
+  end.
+
+(* concurrentSaveState: result = the db after the call returned, and whether it fsynced *)
+Definition tan_mux_save (m : mdb) (us : list update) : mdb * bool :=
+  let '(m', flag) := tan_mux_appends m false us in
+  let synced := flag && tan_mux_sync_after_batch in
+  (if synced then (fun k => tan_fsync (m' k)) else m', synced).
+
+(* sequentialSaveState: one db per replica, fsynced per update *)
+Fixpoint tan_seq_save (m : mdb) (us : list update) : mdb :=
+  match us with
+  | [] => m
+  | u :: r =>
+    let d := m (ukey u) in
+    let d' := if tan_seq_sync_each then fst (tan_write d u) else fst (tan_append d u) in
+    tan_seq_save (mupd m (ukey u) d') r
+  end.
+
+Definition tan_mux_run (m : mdb) (batches : list (list update)) : mdb :=
+  fold_left (fun m us => fst (tan_mux_save m us)) batches m.
+Definition tan_seq_run (m : mdb) (batches : list (list update)) : mdb :=
+  fold_left tan_seq_save batches m.
+
+(* ------------------------------------------------------------------ *)
+(* tan's rebuildLog (internal/tan/open.go): a log whose tail record is torn is copied record by
+   record into a new file that then replaces the broken one. The epilogue of the function is
+   GENERATED ([tan_rebuild_log_steps]). Abstract state of the replacement: is its content
+   fsynced, has it taken the place of the log (rename issued; a rename may reach the disk at
+   any time after it was issued). The repaired log is never written again (tan switches to a
+   fresh log), so nothing later fsyncs it. *)
+Record rebuild_state := mkRS { rs_content_synced : bool; rs_renamed : bool }.
+Definition rebuild_step (s : rebuild_state) (x : rstep) : rebuild_state :=
+  match x with
+  | RsSyncFile => mkRS true (rs_renamed s)
+  | RsRename => mkRS (rs_content_synced s) true
+  | RsCloseFile | RsSyncDir => s
+  end.
+Definition rebuild_run (steps : list rstep) : rebuild_state :=
+  fold_left rebuild_step steps (mkRS false false).
+(* a power cut at this instant keeps every acknowledged record of the log *)
+Definition rebuild_safe (s : rebuild_state) : bool := negb (rs_renamed s) || rs_content_synced s.
